@@ -34,10 +34,12 @@
 -/
 import CatVerif.Proofs.LineHist
 import CatVerif.Proofs.MidLine
-import CatVerif.Proofs.Readers
+import CatVerif.Proofs.Readers.Frame
+import CatVerif.Proofs.Readers.Name
 import CatVerif.Proofs.Rest
 import CatVerif.Properties.C15
 import CatVerif.Proofs.Steps.ReadChar
+import CatVerif.Proofs.Setters.Reset
 namespace Cat
 open St
 
@@ -257,5 +259,9 @@ example : (runOps ⟨exDesc, init exDesc (List.replicate 16 0) [] [[0]]⟩
 /-- the one place a byte is taken from the input (`read_cmd_char`: at most one byte per call, case-folded outside the
 argument text) is the function re-recognised in the source on every run (translator item T14) -/
 theorem C01_read_generated : readCmdChar = Gen.read_cmd_char := readCmdChar_generated
+
+/-- the return to IDLE after an answer (`reset_state`: IDLE and `cr_flag` cleared, unless a command is held) is the
+function translated from the source on every run (translator item T7) -/
+theorem C01_reset_generated (D : Desc) (s : St) : resetState s = Gen.reset_state D s := resetState_generated D s
 
 end Cat
